@@ -45,21 +45,34 @@ class World:
         cfg = zoo.card3(fin=variant["fin"], res=res, data=variant["data"])
         self.variant = variant
         self.c, self.amp = zoo.load(cfg, point=1)
-        ms = [zoo.M_FIN[n] for n in "BCD"]
-        ev = kin.lattice3(zoo.M_TOP, ms, 7, seed=0, orientations=1)
-        assert len(ev[0]) >= 12, len(ev[0])
-        probe = [a[:5] for a in ev]
-        mc = [a[5:12] for a in ev]
-        self.d0 = self.c.data.cal_angle(zoo.p4_dict("BCD", probe))
-        self.d_new = self.c.data.cal_angle(zoo.p4_dict("BCD", probe))
-        self.mc = self.c.data.cal_angle(zoo.p4_dict("BCD", mc))
-        self.mc["weight"] = np.array([1.0, 0.5, 2.0, 1.0, 0.25, 1.5, 1.0])
+        # the event data (angles, masses) do not depend on the model state: computed once per worker and
+        # variant; every world gets its own shallow copies (the id-keyed cache of the model needs fresh objects)
+        if variant["name"] not in _DATA:
+            ms = [zoo.M_FIN[n] for n in "BCD"]
+            ev = kin.lattice3(zoo.M_TOP, ms, 7, seed=0, orientations=1)
+            assert len(ev[0]) >= 12, len(ev[0])
+            probe = [a[:5] for a in ev]
+            mc = [a[5:12] for a in ev]
+            d_mc = self.c.data.cal_angle(zoo.p4_dict("BCD", mc))
+            d_mc["weight"] = np.array([1.0, 0.5, 2.0, 1.0, 0.25, 1.5, 1.0])
+            _DATA[variant["name"]] = (self.c.data.cal_angle(zoo.p4_dict("BCD", probe)), d_mc)
+        import copy
+
+        tpl_probe, tpl_mc = _DATA[variant["name"]]
+        self.d0 = copy.copy(tpl_probe)
+        self.d_new = copy.copy(tpl_probe)
+        self.mc = copy.copy(tpl_mc)
+        self.nested_bad = []
         self.fault_at = None
         self.calls = 0
         dg = self.amp.decay_group
         orig = dg.get_amp
 
+        self.observing = False
+
         def get_amp(data):
+            if self.observing:
+                return orig(data)
             self.calls += 1
             if self.fault_at is not None and self.calls == self.fault_at:
                 raise InjectedFault("get_amp call %d" % self.calls)
@@ -110,6 +123,7 @@ class World:
 
 
 _DEFAULT_VM = [None]
+_DATA = {}
 
 
 def _names(world):
@@ -123,18 +137,18 @@ PERSISTENT = [("select", (0, 2)), ("select_res", ("R_BC",)), ("setp", 2), ("sele
 
 def comps(tier):
     c = [("eval_same",), ("eval_new",), ("pw",), ("pwi",), ("ff_old", 3), ("ff_new", 3), ("ff_nograd", 3),
-         ("fi", 2, None), ("fi", 2, 0), ("fi", 1, None)]
+         ("fi", 2, None), ("fi", 2, 0), ("fi", 1, None), ("pw_mixed",)]
     if tier == "thorough":
         c += [("ff_old", None), ("ff_new", None), ("ff_old_res", 3), ("fi", 2, 1), ("fi", 1, 0), ("pw_combine",)]
     return c
 
 
-BLOCK_KINDS = ["temp_params", "mask_params", "temp_used_res", "gls_one", "vm_temp", "vm_mask", "temp_config", "variable_scope", "variable_scope_new"]
+BLOCK_KINDS = ["temp_params", "mask_params", "temp_used_res", "temp_used_res_mixed", "gls_one", "vm_temp", "vm_mask", "temp_config", "variable_scope", "variable_scope_new"]
 
 
 def blocks(tier):
     bodies = [("pass",), ("eval_same",), ("pw",)]
-    nested = [("block", "temp_used_res", ("eval_same",)), ("block", "mask_params", ("eval_same",))]
+    nested = [("block", "temp_used_res", ("eval_same",)), ("block", "mask_params2", ("eval_same",)), ("block", "temp_used_res_mixed", ("pass",))]
     if tier == "thorough":
         bodies += [("ff_old", 3), ("eval_new",), ("fi", 2, 0)]
         nested += [("block", "temp_params", ("pw",)), ("block", "gls_one", ("eval_same",)), ("block", "vm_temp", ("pass",))]
@@ -167,8 +181,12 @@ def open_block(world, kind):
         return amp.temp_params(zoo.param_point(amp, 3))
     if kind == "mask_params":
         return amp.mask_params({tot[0]: 0.0})
+    if kind == "mask_params2":
+        return amp.mask_params({tot[0]: 0.5, tot[-1]: 0.25})
     if kind == "temp_used_res":
         return amp.temp_used_res(["R_BD"])
+    if kind == "temp_used_res_mixed":
+        return amp.temp_used_res(["R_BC", 2])
     if kind == "gls_one":
         return amp.temp_total_gls_one()
     if kind == "vm_temp":
@@ -200,6 +218,8 @@ def do(world, op):
         amp(world.d_new)
     elif k == "pw":
         amp.partial_weight(world.mc)
+    elif k == "pw_mixed":
+        amp.partial_weight(world.mc, combine=[["R_BC", 2], [1]])
     elif k == "pw_combine":
         amp.partial_weight(world.mc, combine=[[0], [0, 1]])
     elif k == "pwi":
@@ -218,8 +238,19 @@ def do(world, op):
             if op[2] is not None and i == op[2]:
                 break
     elif k == "block":
-        with open_block(world, op[1]):
-            do(world, op[2])
+        depth = getattr(world, "_depth", 0)
+        pre = light_snapshot(world) if depth >= 1 else None
+        world._depth = depth + 1
+        try:
+            with open_block(world, op[1]):
+                do(world, op[2])
+        finally:
+            world._depth = depth
+            if pre is not None:
+                post = light_snapshot(world)
+                if post != pre:
+                    diff = [k for k in pre if pre[k] != post[k]]
+                    world.nested_bad.append(("nested-leave", "state inside the enclosing block differs after leaving the inner %s block: %s" % (op[1], diff)))
     elif k == "select":
         amp.set_used_chains(list(op[1]))
     elif k == "select_res":
@@ -228,6 +259,28 @@ def do(world, op):
         amp.set_params(zoo.param_point(amp, op[1]))
     else:
         raise ValueError(op)
+
+
+def light_snapshot(world):
+    """side-effect free observation (eager density, no cache path), used inside open blocks"""
+    from tf_pwa.config import get_config
+
+    amp = world.amp
+    dg = amp.decay_group
+    world.observing = True
+    try:
+        dens = np.round(np.asarray(amp.pdf(world.d0)), 12).tolist()
+    except Exception as e:  # the snapshot must never mask the real outcome
+        dens = "error: %s" % type(e).__name__
+    finally:
+        world.observing = False
+    return {
+        "params": {k: float(v) for k, v in amp.get_params().items()},
+        "chains_idx": [int(i) for i in dg.chains_idx],
+        "mask_vars": {k: float(v) for k, v in amp.vm.mask_vars.items()},
+        "mask_factor": [bool(getattr(i, "mask_factor", False)) for ch in dg for i in [ch] + list(ch)],
+        "polar": get_config("polar"), "dens": dens,
+    }
 
 
 def is_persistent(op):
@@ -319,7 +372,7 @@ def expand(payload):
         hid = short_hash(w.hidden())
         obs = w.observe()
         ref = reference(variant, h2)
-        bad = compare(obs, ref)
+        bad = compare(obs, ref) + list(w.nested_bad)
         res.case(nontrivial_key=None, outcome=short_hash(obs["dens"][0]))
         res.count("transitions")
         for fp, what in bad:
@@ -346,7 +399,7 @@ def faults(payload):
         if raised is None and k is not None:
             return {"harness_error": "fault %r did not fire in %r" % (k, h2)}
         obs = w.observe()
-        bad = compare(obs, ref)
+        bad = compare(obs, ref) + list(w.nested_bad)
         res.case(nontrivial_key=(variant["name"], repr(h2), k), outcome=short_hash(obs["chains_idx"]))
         res.count("injection_points")
         for fp, what in bad:
@@ -437,4 +490,4 @@ def replay(case):
     ref = reference(variant, hist)
     pre = "fault:" if (case.get("fault_at") is not None or raised is not None) else ""
     tag = "in" if pre else "after"
-    return [{"fp": "%s%s|%s:%s|%s" % (pre, fp, tag, _fpop(hist[-1]), variant["name"]), "what": what} for fp, what in compare(obs, ref)]
+    return [{"fp": "%s%s|%s:%s|%s" % (pre, fp, tag, _fpop(hist[-1]), variant["name"]), "what": what} for fp, what in compare(obs, ref) + list(w.nested_bad)]
